@@ -12,7 +12,20 @@ impl Vm {
   pub fn execute(&mut self, mode: ExecutionMode) -> (r: ExecutionResult)
     ensures final(self).nested@ == old(self).nested@.push(mode_depth(mode)), final(self).builtin == old(self).builtin,
             // A-hist: the loop only answers RuntimeError after set_error; it never compiles
-            r is RuntimeError ==> final(self).fiber.error is Some, !(r is CompileError)
+            r is RuntimeError ==> final(self).fiber.error is Some, !(r is CompileError),
+            // A-errctor (see resolve_call): the nested run started for a builtin error constructor hands back the instance
+            (old(self).called@ matches Some(c) && is_builtin_error_class(c.0)) ==> (r matches ExecutionResult::Ok(v) && v_is_obj(v) && o_kind(v_obj(v)) == ObjectKind::Instance),
+            final(self).called == old(self).called,
+            // call protocol: when the frame the run was started for returns, the frame's slots (callee + arguments, everything above) are gone and
+            // the result is handed back; nothing below the callee slot was touched
+            (r is Ok && old(self).fiber.frames@.len() > 0 && old(self).fiber.stack@.len() >= old(self).fiber.frames@.last().arg_count as int + 1) ==>
+              final(self).fiber.stack@ == old(self).fiber.stack@.subrange(0, old(self).fiber.stack@.len() - (old(self).fiber.frames@.last().arg_count as int + 1))
   { ExecutionResult::RuntimeError }
 }
 pub open spec fn mode_depth(m: ExecutionMode) -> Option<int> { match m { ExecutionMode::Normal => None, ExecutionMode::CallingNativeCode(d) => Some(d as int) } }
+
+impl Vm {
+  /// manage_str(message) of an already managed string: interning returns the same string
+  #[verifier::external_body]
+  pub fn verif_reintern(&mut self, s: LyStr) -> (r: LyStr) ensures r == s, *final(self) == *old(self) { s }
+}
